@@ -155,9 +155,10 @@ Definition w3_labels : list label :=
    LCheckout; LStart; LAct 1; LAct 1; LAct 1; LAct 1;
    LCrash].
 Definition w3_killed := run_labels w2_site w2_host w2_scope 20 [1] 2 w3_labels init.
-Definition w3_final := match w3_killed with
-                       | Some s => run_on w2_site w2_host w2_scope 20 [1] 2 200 (st_tbl s) (st_hosts s) (st_log s)
-                       | None => None end.
+Definition w3_rel := get (fire w2_site w2_host w2_scope 20 [1] 2 LRelease (get w3_killed)).
+Definition w3_boot := get (fire w2_site w2_host w2_scope 20 [1] 2 LAddStarts w3_rel).
+(* the same command again, one worker after the other *)
+Definition w3_final := seq_run w2_site w2_host w2_scope 20 [1] 2 200 w3_boot.
 
 Lemma steps_cons site host in_scope maxredir starts conc s s1 s' :
   step site host in_scope maxredir starts conc s s1 -> steps site host in_scope maxredir starts conc s1 s' ->
@@ -195,12 +196,10 @@ Proof.
   - (* the killed run, then the restart, as one execution *)
     assert (Rk : reach w2_site w2_host w2_scope 20 [1] 2 (get w3_killed)).
     { apply (run_labels_reach _ _ _ _ _ _ w3_labels init); [constructor | vm_compute; reflexivity]. }
-    assert (E : exists s1 s2, fire w2_site w2_host w2_scope 20 [1] 2 LRelease (get w3_killed) = Some s1 /\
-                              fire w2_site w2_host w2_scope 20 [1] 2 LAddStarts s1 = Some s2 /\
-                              seq_run w2_site w2_host w2_scope 20 [1] 2 200 s2 = Some (get w3_final)).
-    { eexists. eexists. split; [vm_compute; reflexivity|]. split; vm_compute; reflexivity. }
-    destruct E as [sa [sb [E1 [E2 E3]]]].
-    apply (steps_reach _ _ _ _ _ _ sb); [|now apply seq_run_steps with (fuel := 200%nat)].
+    assert (E1 : fire w2_site w2_host w2_scope 20 [1] 2 LRelease (get w3_killed) = Some w3_rel) by (vm_compute; reflexivity).
+    assert (E2 : fire w2_site w2_host w2_scope 20 [1] 2 LAddStarts w3_rel = Some w3_boot) by (vm_compute; reflexivity).
+    assert (E3 : seq_run w2_site w2_host w2_scope 20 [1] 2 200 w3_boot = Some (get w3_final)) by (vm_compute; reflexivity).
+    apply (steps_reach _ _ _ _ _ _ w3_boot); [|apply (seq_run_steps _ _ _ _ _ _ 200%nat); exact E3].
     econstructor; [econstructor; [exact Rk|exists LRelease; exact E1]|exists LAddStarts; exact E2].
   - split; [apply quiescent_of_shape; vm_compute; reflexivity|]. split.
     + assert (E : existsb (fun e => (fst (fst e) =? 6) && (snd (fst e) =? 6) && snd e) (st_log (get w2_seq)) = true) by (vm_compute; reflexivity).
@@ -208,7 +207,7 @@ Proof.
       apply andb_prop in Hc. destruct Hc as [Hc Hd]. apply andb_prop in Hc. destruct Hc as [Ha Hb].
       apply N.eqb_eq in Ha, Hb. subst. exact He.
     + assert (E : forallb (fun e => negb (snd (fst e) =? 6)) (st_log (get w3_final)) = true) by (vm_compute; reflexivity).
-      rewrite forallb_forall in E. intros C. specialize (E _ C). discriminate.
+      rewrite forallb_forall in E. intros C. specialize (E _ C). cbn in E. discriminate E.
 Qed.
 
 Lemma c03_nonvacuous :
